@@ -455,4 +455,142 @@ theorem p2Proc_spec (n fuel : Nat) (s : State F) (hv : VS s n) (hrun : s.ctl = .
     · intro v _; rfl
     · intro v hv'; simp only [List.mem_cons, List.not_mem_nil, or_false] at hv'; simp [setS, hv']
 
+theorem walkE_append {α : Type} [LT α] [DecidableLT α] [LE α] [DecidableLE α] (ang g : α) (f : Node α → α)
+    (xs ys : List (Node α)) (acc : α) :
+    walkE ang g f (xs ++ ys) acc =
+      if (walkE ang g f xs acc).2 = true then walkE ang g f xs acc else walkE ang g f ys (walkE ang g f xs acc).1 := by
+  induction xs generalizing acc with
+  | nil => simp [walkE]
+  | cons x xs ih =>
+    simp only [List.cons_append, walkE]
+    split
+    · split
+      · simp
+      · exact ih _
+    · exact ih _
+
+def p2iv : List String := [q_cur_node, q_last_node]
+
+/-- phase 2 from any position: the model's `walk` over the node itself (unless it is the key's node) and its in-order
+    predecessors, nearest first; the loop is left by `return` exactly when the walk exits early -/
+theorem p2Loop_spec (n : Nat) (sh : Sh) (k : Nat) : ∀ (m : Nat) (l : Sh) (j : Nat) (r : Sh) (ctx : Ctx) (fuel : Nat)
+    (s : State F), VS s n → s.ctl = .run → Linked (s.ia "tree_nodes") n (-1) sh → sh.idxs.Nodup →
+    plug (.node l j r) ctx = sh → s.ienv q_cur_node = j → s.ienv q_key_node = k →
+    (l.rev ++ predsCtx ctx).length ≤ m →
+    (∀ i ∈ j :: (l.rev ++ predsCtx ctx), Fl.lt (s.fenv q_max_key) (vAt (s.fa "tree_vals") i 0).v = false) →
+    (∀ i ∈ l.rev ++ predsCtx ctx, i ≠ k) →
+    m + sh.height + 2 ≤ fuel →
+    let ang : Fv F := ⟨s.fenv q_ang⟩
+    let w := walkE ang ⟨s.fenv q_gradient⟩ (fun nd => itp nd ang)
+      (((if j = k then [] else [j]) ++ (l.rev ++ predsCtx ctx)).map (nodeAt (s.fa "tree_vals"))) ⟨s.fenv q_max⟩
+    let q := exec fuel p2Loop s
+    Frame p2iv p2fv [q_check_me] s q ∧
+      (w.2 = true → q.ctl = .ret ∧ q.fenv q_ret0 = w.1.v) ∧ (w.2 = false → q.ctl = .run ∧ q.fenv q_max = w.1.v) := by
+  intro m
+  induction m using Nat.strongRecOn with
+  | _ m ih =>
+  intro l j r ctx fuel s hv hrun hL hN hplug hcur hkey hlen hnf hne hfuel
+  obtain ⟨fuel, rfl⟩ : ∃ f, fuel = f + 1 := ⟨fuel - 1, by omega⟩
+  -- local facts at this position
+  obtain ⟨hl, hc, _⟩ := unplug ctx (.node l j r) (by rw [hplug]; exact hL) (by rw [hplug]; exact hN)
+  have hj : j + 1 < n := hl.1
+  have hph := plug_height ctx (.node l j r)
+  rw [hplug] at hph
+  simp only [Sh.height] at hph
+  -- the loop test
+  have hok : (BE.cmpI .ne (.var q_cur_node) (.lit (-1))).ok s = true := by simp [BE.ok, IE.ok_var, IE.ok_lit]
+  have hev : (BE.cmpI .ne (.var q_cur_node) (.lit (-1))).eval s = true := by
+    simp [BE.eval, IE.eval_var, IE.eval_lit, hcur, cmpInt]
+  -- the processing half
+  have hP := p2Proc_spec n fuel s hv hrun j hj hcur (hnf j List.mem_cons_self)
+  simp only [hkey] at hP
+  obtain ⟨hP1, hP2, hP3⟩ := hP
+  intro ang w q
+  -- the walk splits into the step at `j` and the rest
+  have hlist1 : (if (j : Int) = (k : Int) then ([] : List (Node (Fv F))) else [nodeAt (s.fa "tree_vals") j]) =
+      (if j = k then [] else [j]).map (nodeAt (s.fa "tree_vals")) := by
+    by_cases e : j = k
+    · simp [e]
+    · have : ¬ ((j : Int) = (k : Int)) := by omega
+      simp [e, this]
+  have hsplit := walkE_append ang ⟨s.fenv q_gradient⟩ (fun nd => itp nd ang)
+    (if (j : Int) = (k : Int) then ([] : List (Node (Fv F))) else [nodeAt (s.fa "tree_vals") j])
+    ((l.rev ++ predsCtx ctx).map (nodeAt (s.fa "tree_vals"))) ⟨s.fenv q_max⟩
+  rw [hlist1, ← List.map_append] at hsplit
+  rw [← hlist1] at hsplit
+  change w = _ at hsplit
+  generalize hw1 : walkE ang ⟨s.fenv q_gradient⟩ (fun nd => itp nd ang)
+        (if (j : Int) = (k : Int) then [] else [nodeAt (s.fa "tree_vals") j]) ⟨s.fenv q_max⟩ = w1 at hsplit hP2 hP3
+  have hbody : exec fuel p2Body s = exec fuel (.seq p2Proc p2Move) s := p2Body_exec fuel s
+  by_cases hx : w1.2 = true
+  · -- early exit inside the processing half
+    obtain ⟨hq1, hq2⟩ := hP2 hx
+    have hb : exec fuel p2Body s = exec fuel p2Proc s := by
+      rw [hbody, exec_seq_stop]; rw [hq1]; simp
+    have hq : q = exec fuel p2Proc s := by
+      simp only [q, p2Loop]
+      rw [exec_while_ret _ _ _ _ hok hev (by rw [hb]; exact hq1), hb]
+    have hw : w = w1 := by rw [hsplit]; simp [hx]
+    rw [hq, hw]
+    exact ⟨hP1.mono (by simp) (fun _ h => h) (fun _ h => h), fun _ => ⟨hq1, hq2⟩, fun h => (by rw [hx] at h; cases h)⟩
+  · have hx' : w1.2 = false := by simpa using hx
+    obtain ⟨hq1, hq2⟩ := hP3 hx'
+    -- the move to the predecessor
+    have hM := p2Move_spec n fuel (exec fuel p2Proc s) (hP1.vs hv) hq1 l j r ctx (by rw [hP1.ia]; exact hl)
+      (by rw [hP1.ia]; exact hc) (by rw [hP1.ienv _ (by simp)]; exact hcur) (by omega)
+    obtain ⟨hM1, hM2, hM3⟩ := hM
+    have hb : exec fuel p2Body s = exec fuel p2Move (exec fuel p2Proc s) := by
+      rw [hbody, exec_seq_run _ _ _ _ hq1]
+    have hfr2 : Frame p2iv p2fv [q_check_me] s (exec fuel p2Body s) := by
+      rw [hb]
+      exact (hP1.mono (by simp) (fun _ h => h) (fun _ h => h)).trans
+        (hM2.mono (fun _ h => h) (by simp) (by simp))
+    have hq : q = exec fuel p2Loop (exec fuel p2Body s) := by
+      simp only [q, p2Loop]
+      rw [exec_while_step _ _ _ _ hok hev (by rw [hb]; exact hM1)]
+    have hw : w = walkE ang ⟨s.fenv q_gradient⟩ (fun nd => itp nd ang)
+        ((l.rev ++ predsCtx ctx).map (nodeAt (s.fa "tree_vals"))) w1.1 := by rw [hsplit]; simp [hx]
+    -- values in the state after the body
+    have hfe : ∀ v, v ∉ p2fv → (exec fuel p2Body s).fenv v = s.fenv v := hfr2.fenv
+    have hmax : (exec fuel p2Body s).fenv q_max = w1.1.v := by
+      rw [hb, hM2.fenv _ (by simp)]; exact hq2
+    have hcur2 : (exec fuel p2Body s).ienv q_cur_node = predPtr l ctx := by rw [hb]; exact hM3
+    have hkey2 : (exec fuel p2Body s).ienv q_key_node = k := by
+      rw [hfr2.ienv _ (by simp [p2iv])]; exact hkey
+    rw [predPos_ptr l j r ctx] at hcur2
+    cases hpp : predPos l j r ctx with
+    | none =>
+      rw [hpp] at hcur2
+      have hnil := predPos_none l j r ctx hpp
+      obtain ⟨f2, rfl⟩ : ∃ f, fuel = f + 1 := ⟨fuel - 1, by omega⟩
+      have hq' : q = exec (f2 + 1) p2Body s := by
+        rw [hq, p2Loop, exec_while_exit]
+        · simp [BE.ok, IE.ok_var, IE.ok_lit]
+        · simp [BE.eval, IE.eval_var, IE.eval_lit, hcur2, cmpInt]
+      rw [hq', hw, hnil]
+      simp only [List.map_nil, walkE]
+      exact ⟨hfr2, fun h => (by cases h), fun _ => ⟨by rw [hb]; exact hM1, hmax⟩⟩
+    | some pos =>
+      obtain ⟨l', j', r', c'⟩ := pos
+      rw [hpp] at hcur2
+      obtain ⟨hpl, hlist⟩ := predPos_some l j r ctx l' j' r' c' hpp
+      have hlen' : (l'.rev ++ predsCtx c').length < m := by
+        have : (j' :: l'.rev ++ predsCtx c').length ≤ m := by rw [hlist]; exact hlen
+        simp only [List.cons_append, List.length_cons] at this; omega
+      have hj'k : j' ≠ k := hne j' (by rw [← hlist]; simp)
+      have := ih (l'.rev ++ predsCtx c').length hlen' l' j' r' c' fuel (exec fuel p2Body s) (hfr2.vs hv)
+        (by rw [hb]; exact hM1) (by rw [hfr2.ia]; exact hL) hN (hpl.trans hplug) hcur2 hkey2 (Nat.le_refl _)
+        (by
+          intro i hi
+          rw [hfe _ (by simp [p2fv]), hfr2.fa]
+          exact hnf i (List.mem_cons_of_mem _ (by rw [← hlist]; simpa using hi)))
+        (by intro i hi; exact hne i (by rw [← hlist]; simp only [List.cons_append, List.mem_cons]; exact Or.inr hi))
+        (by omega)
+      simp only [hj'k, if_false] at this
+      rw [hfe _ (by simp [p2fv]), hfe _ (by simp [p2fv]), hmax, hfr2.fa] at this
+      have hl2 : [j'] ++ (l'.rev ++ predsCtx c') = l.rev ++ predsCtx ctx := by rw [← hlist]; simp
+      rw [hl2] at this
+      rw [hq, hw]
+      exact ⟨hfr2.trans this.1, this.2⟩
+
 end XrsVerif.ILVs
